@@ -368,14 +368,28 @@ fn check_dict<H: AsRef<[usize]> + SelectUnchecked + SelectZeroUnchecked>(
         });
     }
     if part == Part::Main {
-        // the same through a reference (the traits are implemented for &T)
-        let r = &ef;
-        let some: Vec<usize> = qs.iter().copied().step_by(7).collect();
-        batch(c, "succ+pred+index_of(&ef)", &some, xs, d, |q| (Succ::succ(r, q), Pred::pred(r, q), IndexedDict::index_of(r, q)), |q, g| {
-            if pair_ok(xs, g.0, model_succ(xs, q, false)) && pair_ok(xs, g.1, model_pred(xs, q, false)) && index_ok(xs, q, g.2) {
+        // the same through a reference: the traits have their own forwarding
+        // implementations for &T, which are only selected when the dictionary
+        // type itself is a reference (a generic function called with &ef)
+        let some: Vec<usize> = qs.iter().copied().step_by(5).collect();
+        batch(c, "all_ops(&ef)", &some, xs, d, |q| all_ops_generic(&ef, q), |q, g| {
+            if pair_ok(xs, g.0, model_succ(xs, q, false))
+                && pair_ok(xs, g.1, model_succ(xs, q, true))
+                && pair_ok(xs, g.2, model_pred(xs, q, false))
+                && pair_ok(xs, g.3, model_pred(xs, q, true))
+                && index_ok(xs, q, g.4)
+                && g.5 == xs.binary_search(&q).is_ok()
+            {
                 Ok(())
             } else {
-                Err(format!("(succ {}, pred {}, index_of per model)", want_pair(xs, model_succ(xs, q, false)), want_pair(xs, model_pred(xs, q, false))))
+                Err(format!(
+                    "(succ {}, succ_strict {}, pred {}, pred_strict {}, contains {} per model; got in that order, then index_of and contains)",
+                    want_pair(xs, model_succ(xs, q, false)),
+                    want_pair(xs, model_succ(xs, q, true)),
+                    want_pair(xs, model_pred(xs, q, false)),
+                    want_pair(xs, model_pred(xs, q, true)),
+                    xs.binary_search(&q).is_ok()
+                ))
             }
         });
     }
@@ -637,4 +651,15 @@ fn main() {
         }
     }
     ctx.finish();
+}
+
+
+/// All value queries through a dictionary type chosen by the caller: with
+/// `D = &EliasFano<..>` this goes through the `impl ... for &T` forwarding layer.
+#[allow(clippy::type_complexity)]
+fn all_ops_generic<D>(d: D, q: usize) -> (Option<(usize, usize)>, Option<(usize, usize)>, Option<(usize, usize)>, Option<(usize, usize)>, Option<usize>, bool)
+where
+    D: Succ + Pred + IndexedDict + sux::traits::Types<Input = usize, Output = usize>,
+{
+    (d.succ(q), d.succ_strict(q), d.pred(q), d.pred_strict(q), d.index_of(q), d.contains(q))
 }
